@@ -94,12 +94,15 @@ class Run:
         self.initial = dict(kw)
         kw.update(hole_in=self._hole_in, hole_out=self._hole_out, boom=_boom, kbi=_kbi)
         self.depth = 0
+        self.children_translate = any('i18n:' in ch[1] for ch in children.values())
         self.translations = []    # this schema's own calls (made outside every hole)
         real_translate = self.template.translate
 
         def recording_translate(*a, **k):
             r = real_translate(*a, **k)
-            if self.depth == 0:
+            # a translation block passes default=; the conversion routine's offer of a message
+            # object does not (the symbolic model keeps those inside __quote/__convert as well)
+            if 'default' in k and (self.depth == 0 or not self.children_translate):
                 self.translations.append((a, k, r))
             return r
         kw['__translate'] = recording_translate
@@ -265,14 +268,15 @@ class Run:
             return -1
 
         def translate_arg(i, nm):
-            # only meaningful when no child failed half-way (the hole depth is then exact)
-            if any(m[1] is None for ms in self.hole_marks.values() for m in ms):
+            # with translating children: only meaningful when no child failed half-way (the hole
+            # depth is then exact)
+            if self.children_translate and any(m[1] is None for ms in self.hole_marks.values() for m in ms):
                 raise NotImplementedError
             a, k, r = self.translations[i]
             return a[0] if nm == 'msgid' else k.get(nm)
 
         def translate_result(i):
-            if any(m[1] is None for ms in self.hole_marks.values() for m in ms):
+            if self.children_translate and any(m[1] is None for ms in self.hole_marks.values() for m in ms):
                 raise NotImplementedError
             return self.translations[i][2]
 
